@@ -93,6 +93,67 @@ pub struct RunResult {
     pub files: BTreeMap<String, Vec<u8>>,
 }
 
+/// Wall limit per execution. rusty-leveldb's iterator does read sampling with `rand::random` in a loop whose
+/// length is a heavy-tailed random walk (db_iter.rs: `while byte_count < 0 { byte_count += random_period() }` with a
+/// period that may be negative): about 1 run in 10^4 spins for seconds to minutes. The random choice does not
+/// influence any output, so an execution that exceeds the limit is killed and repeated (counted in the evidence).
+fn spec_timeout(spec: &RunSpec) -> u64 {
+    spec.env.iter().find(|(k, _)| k == "VERIF_RUN_TIMEOUT").and_then(|(_, v)| v.parse().ok()).unwrap_or(20)
+}
+
+pub static TIMEOUT_RETRIES: std::sync::atomic::AtomicU64 = std::sync::atomic::AtomicU64::new(0);
+static WATCH: std::sync::Mutex<Vec<(u32, std::time::Instant)>> = std::sync::Mutex::new(Vec::new());
+static KILLED: std::sync::Mutex<Vec<u32>> = std::sync::Mutex::new(Vec::new());
+static WATCHDOG: std::sync::Once = std::sync::Once::new();
+
+fn start_watchdog() {
+    WATCHDOG.call_once(|| {
+        std::thread::spawn(|| loop {
+            std::thread::sleep(std::time::Duration::from_millis(200));
+            let now = std::time::Instant::now();
+            let mut w = WATCH.lock().unwrap();
+            let mut k = KILLED.lock().unwrap();
+            w.retain(|(pid, deadline)| {
+                if now >= *deadline {
+                    unsafe { libc::kill(*pid as i32, libc::SIGKILL) };
+                    k.push(*pid);
+                    false
+                } else {
+                    true
+                }
+            });
+        });
+    });
+}
+
+/// Like Command::output(), but kills the child after `timeout_s` and retries (up to 5 attempts).
+pub fn output_with_watchdog(cmd: &mut Command, timeout_s: u64) -> std::io::Result<std::process::Output> {
+    start_watchdog();
+    let mut last = None;
+    for _attempt in 0..5 {
+        let child = cmd.spawn()?;
+        let pid = child.id();
+        WATCH.lock().unwrap().push((pid, std::time::Instant::now() + std::time::Duration::from_secs(timeout_s)));
+        let out = child.wait_with_output();
+        WATCH.lock().unwrap().retain(|(p, _)| *p != pid);
+        let was_killed = {
+            let mut k = KILLED.lock().unwrap();
+            let hit = k.contains(&pid);
+            k.retain(|p| *p != pid);
+            hit
+        };
+        let out = out?;
+        if !was_killed {
+            return Ok(out);
+        }
+        TIMEOUT_RETRIES.fetch_add(1, std::sync::atomic::Ordering::SeqCst);
+        last = Some(out);
+    }
+    let mut out = last.unwrap();
+    out.stderr.extend_from_slice(b"\nVERIF-TIMEOUT: execution exceeded the wall limit 5 times\n");
+    Ok(out)
+}
+
 pub fn subject_bin() -> PathBuf {
     PathBuf::from(std::env::var("RBP_BIN").unwrap_or_else(|_| "/verif/.build/subject/debug/rusty-blockparser".into()))
 }
@@ -116,6 +177,13 @@ pub fn run_bin(bin: &Path, data: &Path, dump: &Path, spec: &RunSpec) -> RunResul
     cmd.env("RAYON_NUM_THREADS", spec.threads.to_string());
     cmd.env("HOME", data);
     cmd.env("RUST_BACKTRACE", "0");
+    // determinism shim (see faultfs/faultfs.c): fixed getrandom stream => fixed HashMap order, no read-sampling random walk
+    if let Ok(shim) = std::env::var("VERIF_SHIM") {
+        if !shim.is_empty() {
+            cmd.env("LD_PRELOAD", shim);
+            cmd.env("VERIF_DETRAND", std::env::var("VERIF_DETRAND").unwrap_or_else(|_| "1".into()));
+        }
+    }
     for (k, v) in &spec.env {
         cmd.env(k, v);
     }
@@ -137,7 +205,7 @@ pub fn run_bin(bin: &Path, data: &Path, dump: &Path, spec: &RunSpec) -> RunResul
             });
         }
     }
-    let out = match cmd.output() {
+    let out = match output_with_watchdog(&mut cmd, spec_timeout(spec)) {
         Ok(o) => o,
         Err(e) => {
             return RunResult { code: None, signal: None, stdout: String::new(), stderr: format!("SPAWN-ERROR {}", e), files: BTreeMap::new() };
